@@ -112,7 +112,9 @@ FactsOf(c) ==
         S == {v \in V : v[2] \in AutCo(c).acc /\ v[3] \in AutSa(c).acc}
         D == Relax(E, V, TLCEval([v \in V |-> IF v = Start(c) THEN 0 ELSE Inf]), Cardinality(V))
         mw == IF S = {} THEN -1 ELSE Min({D[v] : v \in S})
-    IN  [reach |-> V, edges |-> E, sol |-> S, dist |-> D, minw |-> mw,
+        \* weight of a lightest path from each state to some solution state: the same relaxation backwards
+        B == Relax({<<e[2], e[1], e[3]>> : e \in E}, V, TLCEval([v \in V |-> IF v \in S THEN 0 ELSE Inf]), Cardinality(V))
+    IN  [reach |-> V, edges |-> E, sol |-> S, dist |-> D, minw |-> mw, tosol |-> B,
          dead |-> UNION {{<<u, r2>> : r2 \in {r2 \in Nbrs(u[1]) : ~Valid(PStep(c, u, r2))}} : u \in V}]
 
 Opt == {v \in P.sol : P.dist[v] = P.minw}
@@ -156,6 +158,16 @@ DistCertificate ==
         /\ P.dist[Start(cfg)] = 0
         /\ \A e \in P.edges : P.dist[e[2]] <= P.dist[e[1]] + e[3]
         /\ \A v \in P.reach : v # Start(cfg) => P.dist[v] < Inf /\ TightPreds(v) # {}
+(* the same certificate for the weight of a lightest lead from ANY reachable state (computeLead takes the
+   initial state as a parameter): 0 exactly on solution states, feasible, tight along some edge *)
+ToSolCertificate ==
+    (mode = "explore" /\ cur = Start(cfg)) =>
+        /\ \A v \in P.reach : (P.tosol[v] = 0 /\ cfg.ws # "zero") => v \in P.sol
+        /\ \A v \in P.sol : P.tosol[v] = 0
+        /\ \A e \in P.edges : P.tosol[e[1]] <= P.tosol[e[2]] + e[3] \/ P.tosol[e[2]] >= Inf
+        /\ \A v \in P.reach \ P.sol : P.tosol[v] < Inf =>
+               \E e \in P.edges : e[1] = v /\ P.tosol[v] = P.tosol[e[2]] + e[3]
+        /\ (P.minw >= 0 => P.tosol[Start(cfg)] = P.minw) /\ (P.minw < 0 => P.tosol[Start(cfg)] >= Inf)
 (* a lead: product edges only (by construction of Back), from an optimal solution state ... *)
 LeadNeverLeavesSafe == mode = "lead" => cur \in P.reach /\ AccSa(cur)
 LeadWordSafe ==   \* language level: no region entered along the lead shows an avoided proposition
@@ -198,7 +210,8 @@ Header == (DumpOn /\ mode = "explore" /\ cur = Start(cfg)) =>
                    co |-> cfg.co, sa |-> cfg.sa, ws |-> cfg.ws, nbr |-> [i \in 1..NR |-> NbrSeq(i - 1)],
                    s0 |-> Start(cfg),
                    info |-> {<<v, DistCode(AutCo(cfg), v[2]), DistCode(AutSa(cfg), v[3]),
-                               IF v \in P.sol THEN 1 ELSE 0, IF P.dist[v] >= Inf THEN -1 ELSE P.dist[v]>> : v \in P.reach},
+                               IF v \in P.sol THEN 1 ELSE 0, IF P.dist[v] >= Inf THEN -1 ELSE P.dist[v],
+                               IF P.tosol[v] >= Inf THEN -1 ELSE P.tosol[v]>> : v \in P.reach},
                    edges |-> P.edges, dead |-> P.dead, minw |-> P.minw,
                    ties |-> IF P.minw >= 0 /\ Ties THEN 1 ELSE 0]))
 ===============================================================================
